@@ -61,7 +61,7 @@ ASSUMPTIONS = [
     'light_gc_time = 300 s; a light is expired when its age is > 300',
     'a failed network scan is a WorkflowException from LifxLAN.get_lights',
 ]
-NAMES = ['a', 'b', 'c', 'd']
+NAMES = ['a', 'b', 'c', 'd', '']      # (a label may be empty)
 GROUPS = ['G1', 'G2', 'G3']
 LOCS = ['L1', 'L2']
 MAX_AGE = 300
